@@ -169,7 +169,7 @@ def check(ctx):
             ctx.fail(R5, c.where(), "the result of is_recoverable is not branched on", [POST, "untested"])
             continue
         for (sb, tgt) in fl:
-            r = pb.reachable([tgt])
+            r = pb.reachable_flags([tgt])   # variant-tag sensitive: an `Err(..)` built here and tested by `?` later follows the Err arm only
             ctx.require(R5, not (set(send_bbs) & r), where(pb, sb), "no send reachable from the non-recoverable edge", [POST, "resend-non-recoverable"])
         # the recoverable edge may loop: and the tested error is the one parsed from this response
         sl = arg_origins(c, 0)
@@ -178,7 +178,7 @@ def check(ctx):
     for c in pb.calls_to("acmed::http::ValidHttpResponse::json"):
         for t in try_edges(pb, [c.dest["l"]]):
             for tgt in t["err"]:
-                r = pb.reachable([tgt])
+                r = pb.reachable_flags([tgt])
                 ctx.require(R5, not (set(send_bbs) & r), c.where(), "no send reachable after a problem document that cannot be parsed",
                             [POST, "resend-unparsable"])
     # is the error branch entered only on check_status Err? (a 2xx is never parsed as an error) — follows from R4 + match structure
